@@ -3,7 +3,9 @@
 // CONNECT head of dialvia and of the transport) to the real proxy: generated credential tables and
 // upstream selections are started for real, generated client requests (plain, CONNECT through the
 // upstream proxy, requests inside an intercepted tunnel) are sent, and every message head every
-// scripted hop reads is compared with the model and with the property's clauses.
+// scripted hop reads is compared with the model and with the property's clauses. PAC configurations whose
+// upstream proxies share a host name (and differ in port), share a port, or are spellings of one address are
+// served request sequences that visit the proxies in every order; the sequence model (pacCredSeq) is compared.
 package c06
 
 import (
@@ -37,12 +39,49 @@ type hops struct {
 	tlsOrig *rig.Peer
 	proxyA  *rig.Peer
 	proxyB  *rig.Peer // TLS proxy
-	socks   *rig.Socks5
-	caFile  string
+	// the proxies of the PAC families (proxyAt): several listeners behind one host name under different ports
+	// (gwA/gwB/gwC plain, gwT TLS), one on another host under gwA's port (alt)
+	gwA, gwB, gwC, gwT, alt *rig.Peer
+	socks                   *rig.Socks5
+	caFile                  string
 }
 
 func (h *hops) peers() map[string]*rig.Peer {
-	return map[string]*rig.Peer{"origin": h.origin, "tlsOrigin": h.tlsOrig, "proxyA": h.proxyA, "proxyB": h.proxyB, "socks": h.socks.Peer}
+	return map[string]*rig.Peer{"origin": h.origin, "tlsOrigin": h.tlsOrig, "proxyA": h.proxyA, "proxyB": h.proxyB, "socks": h.socks.Peer,
+		"gwA": h.gwA, "gwB": h.gwB, "gwC": h.gwC, "gwT": h.gwT, "alt": h.alt}
+}
+
+// proxyAt: the scripted HTTP(S) proxy every proxy address of the generated configurations stands for. One listener is
+// reached under several spellings of its address (letter case, trailing dot, IP literal): for the credentials table and
+// for the proxy under test these are different host:port strings.
+var proxyAt = map[string]string{
+	"proxya.test:3128": "proxyA", "proxyb.test:3129": "proxyB",
+	"gw.test:3128": "gwA", "GW.test:3128": "gwA", "gw.test.:3128": "gwA", "10.9.8.7:3128": "gwA",
+	"gw.test:3129": "gwB", "10.9.8.7:3129": "gwB",
+	"gw.test:8080": "gwC", "gw.test:3443": "gwT",
+	"alt.test:3128": "alt", "[fd00::7]:3128": "alt",
+}
+
+var tlsProxy = map[string]bool{"proxyB": true, "gwT": true}
+
+// socksAt: the addresses the scripted SOCKS5 server is reached under
+var socksAt = map[string]bool{"socks.test:1080": true, "gw.test:1080": true}
+
+func isProxyPeer(name string) bool {
+	for _, p := range proxyAt {
+		if p == name {
+			return true
+		}
+	}
+	return false
+}
+
+// proxyPeerFor: the listener behind a proxy address spoken to in the given scheme ("" = none of them)
+func proxyPeerFor(scheme, hostport string) string {
+	if p := proxyAt[hostport]; p != "" && (scheme == "http" && !tlsProxy[p] || scheme == "https" && tlsProxy[p]) {
+		return p
+	}
+	return ""
 }
 
 func (h *hops) close() {
@@ -68,11 +107,15 @@ func newHops(ctx *core.Ctx, n int) (*hops, error) {
 	if err != nil {
 		return nil, err
 	}
-	oleaf, err := ca.ValidLeaf("origin.test", "secure.test", "other.test")
+	oleaf, err := ca.ValidLeaf("origin.test", "secure.test", "other.test", "fourth.test")
 	if err != nil {
 		return nil, err
 	}
 	pleaf, err := ca.ValidLeaf("proxyb.test")
+	if err != nil {
+		return nil, err
+	}
+	gleaf, err := ca.ValidLeaf("gw.test")
 	if err != nil {
 		return nil, err
 	}
@@ -97,6 +140,17 @@ func newHops(ctx *core.Ctx, n int) (*hops, error) {
 	if h.socks, err = rig.NewSocks5("socks", resolve); err != nil {
 		return nil, err
 	}
+	for _, g := range []struct {
+		name string
+		p    **rig.Peer
+	}{{"gwA", &h.gwA}, {"gwB", &h.gwB}, {"gwC", &h.gwC}, {"alt", &h.alt}} {
+		if *g.p, err = rig.NewForwardProxy(g.name, resolve); err != nil {
+			return nil, err
+		}
+	}
+	if h.gwT, err = rig.NewTLSForwardProxy("gwT", &tls.Config{Certificates: []tls.Certificate{gleaf}}, resolve); err != nil {
+		return nil, err
+	}
 	if h.caFile, err = ca.WriteFile(ctx.Root+"/.work", fmt.Sprintf("c06-ca-%d-%d.pem", time.Now().UnixNano(), n)); err != nil {
 		return nil, err
 	}
@@ -104,12 +158,22 @@ func newHops(ctx *core.Ctx, n int) (*hops, error) {
 }
 
 func (h *hops) routes() []forwarder.HostPortPair {
-	return []forwarder.HostPortPair{
+	rs := []forwarder.HostPortPair{
 		rig.Route("origin.test", "80", h.origin.Addr), rig.Route("origin.test", "8080", h.origin.Addr), rig.Route("other.test", "80", h.origin.Addr),
 		rig.Route("origin.test", "443", h.tlsOrig.Addr), rig.Route("secure.test", "443", h.tlsOrig.Addr), rig.Route("secure.test", "8443", h.tlsOrig.Addr),
 		rig.Route("other.test", "443", h.tlsOrig.Addr),
-		rig.Route("proxya.test", "3128", h.proxyA.Addr), rig.Route("proxyb.test", "3129", h.proxyB.Addr), rig.Route("socks.test", "1080", h.socks.Addr),
+		rig.Route("secure.test", "80", h.origin.Addr), rig.Route("fourth.test", "80", h.origin.Addr), rig.Route("fourth.test", "443", h.tlsOrig.Addr),
+		rig.Route("socks.test", "1080", h.socks.Addr), rig.Route("gw.test", "1080", h.socks.Addr),
 	}
+	peers := h.peers()
+	for hp, name := range proxyAt {
+		host, port, err := net.SplitHostPort(hp)
+		if err != nil {
+			core.Fatalf("proxyAt: %q: %v", hp, err)
+		}
+		rs = append(rs, rig.Route(host, port, peers[name].Addr))
+	}
+	return rs
 }
 
 func (h *hops) reset() {
@@ -214,15 +278,27 @@ func runCase(ctx *core.Ctx, h *hops, cc *ccase) {
 	}
 	defer p.Stop()
 
-	var tunnel *rig.Client // intercepted session shared by the "inner" requests
+	visited := map[string]bool{} // proxy addresses earlier requests of the case were routed to
+	var tunnel *rig.Client       // intercepted session shared by the "inner" requests
 	defer func() {
 		if tunnel != nil {
 			tunnel.Close()
 		}
 	}()
+	var seq []seqObs
+	defer func() {
+		if cc.Route.Base == "pac" {
+			checkSeq(ctx, cc, seq)
+		}
+	}()
 	for i := range cc.Requests {
 		q := &cc.Requests[i]
-		one := oneReq{Kind: "one", Route: cc.Route, Creds: cc.Creds, Gate: cc.Gate, MITM: cc.MITM, CRules: cc.CRules, Request: *q}
+		// a finding on the i-th request of a PAC configuration is reported with the requests served before it on the
+		// same instance: what a proxy is sent must not depend on them, and the replay has to be able to show that it does
+		var one any = oneReq{Kind: "one", Route: cc.Route, Creds: cc.Creds, Gate: cc.Gate, MITM: cc.MITM, CRules: cc.CRules, Request: *q}
+		if cc.Route.Base == "pac" && i > 0 {
+			one = ccase{Kind: "creds", Route: cc.Route, Creds: cc.Creds, Gate: cc.Gate, MITM: cc.MITM, CRules: cc.CRules, Requests: cc.Requests[:i+1]}
+		}
 		h.reset()
 		ob := &observed{}
 		var c *rig.Client
@@ -274,7 +350,11 @@ func runCase(ctx *core.Ctx, h *hops, cc *ccase) {
 		}
 		sort.SliceStable(ob.Heads, func(a, b int) bool { return ob.Heads[a].Peer < ob.Heads[b].Peer })
 		ob.Socks = h.socks.Requests()
-		evaluate(ctx, &fc, one, q, ob)
+		seq = append(seq, seqObs{cs: one, ob: ob})
+		evaluate(ctx, &fc, cc, one, q, ob, visited)
+		if _, up, _ := upstreamSpec(&fc, requestHost(q)); up != "" {
+			visited[up] = true
+		}
 		if q.Kind == "inner" && (rerr != nil || hasClose(res)) {
 			tunnel.Close()
 			tunnel = nil
@@ -445,7 +525,7 @@ func clientValues(q *creq, name string) []string {
 	return out
 }
 
-func evaluate(ctx *core.Ctx, fc *reqmodel.FullCfg, one oneReq, q *creq, ob *observed) {
+func evaluate(ctx *core.Ctx, fc *reqmodel.FullCfg, cc *ccase, one any, q *creq, ob *observed, visited map[string]bool) {
 	mctx := reqmodel.Ctx{ClientIP: "127.0.0.1", Secure: q.Kind == "inner"}
 	var out reqmodel.Outcome
 	scheme := "http"
@@ -465,7 +545,8 @@ func evaluate(ctx *core.Ctx, fc *reqmodel.FullCfg, one oneReq, q *creq, ob *obse
 	if hpOK {
 		site = specMatch(fc.Creds, host, port)
 	}
-	_, upHost, upCred := upstreamSpec(fc, host)
+	upScheme, upHost, upCred := upstreamSpec(fc, host)
+	family := upstreamFamily(fc)
 	cliPA := clientValues(q, "Proxy-Authorization")
 	cliAuth := clientValues(q, "Authorization")
 	// an Authorization the client nominates in Connection is hop-by-hop: it is addressed to this proxy, the
@@ -480,7 +561,7 @@ func evaluate(ctx *core.Ctx, fc *reqmodel.FullCfg, one oneReq, q *creq, ob *obse
 	}
 	cliAuthSupplied := len(cliAuth) > 0 && cliAuth[0] != "" && !authNominated
 
-	ctx.Case(fmt.Sprintf("%+v|%+v|%v|%v|%v|%+v", one.Route, one.Creds, one.Gate, one.MITM, one.CRules, *q),
+	ctx.Case(fmt.Sprintf("%+v|%+v|%v|%v|%v|%+v", cc.Route, cc.Creds, cc.Gate, cc.MITM, cc.CRules, *q),
 		len(fc.Creds) > 0 || len(cliPA) > 0 || upCred != nil)
 	ctx.Count("kind/" + q.Kind)
 	ctx.Count("base/" + fc.Route.Base)
@@ -495,6 +576,36 @@ func evaluate(ctx *core.Ctx, fc *reqmodel.FullCfg, one oneReq, q *creq, ob *obse
 	}
 	if upCred != nil {
 		ctx.Count("upstream-credential")
+	}
+	if len(family) > 1 && upHost != "" {
+		// the history-sensitive situations: this request's proxy shares its host name (port / spelt-out address) with a
+		// DIFFERENT proxy address an earlier request of the same instance went to, and the table tells the two apart
+		uh, up, _ := net.SplitHostPort(upHost)
+		for v := range visited {
+			if v == upHost {
+				continue
+			}
+			vh, vp, _ := net.SplitHostPort(v)
+			apart := "same-credentials"
+			if !sameCred(upCred, familyCred(family, v)) {
+				apart = "told-apart"
+			}
+			switch {
+			case vh == uh:
+				ctx.Count("seq/after-sibling-same-host-other-port/" + apart)
+			case vp == up:
+				ctx.Count("seq/after-sibling-same-port-other-host/" + apart)
+			}
+			if strings.EqualFold(strings.TrimSuffix(vh, "."), strings.TrimSuffix(uh, ".")) && vh != uh && vp == up {
+				ctx.Count("seq/after-other-spelling-of-same-address/" + apart)
+			}
+			if proxyAt[v] != "" && proxyAt[v] == proxyAt[upHost] {
+				ctx.Count("seq/after-other-name-of-same-listener/" + apart)
+			}
+		}
+		if visited[upHost] {
+			ctx.Count("seq/proxy-revisited")
+		}
 	}
 	impl := ob.String()
 	if ob.Err != "" {
@@ -519,10 +630,7 @@ func evaluate(ctx *core.Ctx, fc *reqmodel.FullCfg, one oneReq, q *creq, ob *obse
 		originPeer = "tlsOrigin"
 	}
 	for _, a := range out.Actions {
-		proxyPeer := map[string]string{"http": "proxyA", "https": "proxyB"}[a.Via]
-		if a.Via == "http" && a.HopAddr != "proxya.test:3128" || a.Via == "https" && a.HopAddr != "proxyb.test:3129" {
-			proxyPeer = "" // a proxy address none of the listeners stands for
-		}
+		proxyPeer := proxyPeerFor(a.Via, a.HopAddr) // "": a proxy address none of the listeners stands for
 		if a.Via == "socks5" {
 			wantSocks = append(wantSocks, a)
 		}
@@ -533,7 +641,7 @@ func evaluate(ctx *core.Ctx, fc *reqmodel.FullCfg, one oneReq, q *creq, ob *obse
 					wants = append(wants, want{proxyPeer, s})
 				}
 			case "origin":
-				if (a.Via == "direct" || proxyPeer != "" || a.Via == "socks5" && a.HopAddr == "socks.test:1080") && routed(scheme, q.Authority) {
+				if (a.Via == "direct" || proxyPeer != "" || a.Via == "socks5" && socksAt[a.HopAddr]) && routed(scheme, q.Authority) {
 					wants = append(wants, want{originPeer, s})
 				}
 			}
@@ -594,7 +702,7 @@ func evaluate(ctx *core.Ctx, fc *reqmodel.FullCfg, one oneReq, q *creq, ob *obse
 			}
 		}
 		for _, a := range wantSocks {
-			if a.HopAddr != "socks.test:1080" {
+			if !socksAt[a.HopAddr] {
 				continue
 			}
 			if len(ob.Socks) != 1 || a.SocksTarget == nil || ob.Socks[0].Target != *a.SocksTarget ||
@@ -625,7 +733,7 @@ func evaluate(ctx *core.Ctx, fc *reqmodel.FullCfg, one oneReq, q *creq, ob *obse
 		if _, inside := hd.Fields["x-inside"]; inside {
 			continue
 		}
-		atProxy := hd.Peer == "proxyA" || hd.Peer == "proxyB"
+		atProxy := isProxyPeer(hd.Peer)
 		setup := hd.Method == "CONNECT"
 		for k, vs := range hd.Fields {
 			for _, v := range vs {
@@ -643,10 +751,32 @@ func evaluate(ctx *core.Ctx, fc *reqmodel.FullCfg, one oneReq, q *creq, ob *obse
 							fmt.Sprintf("%s: %s at %s", k, v, hd.Peer))
 					}
 				}
+				// (2') … and so for the credentials of every OTHER upstream proxy of the configuration: this request was not
+				// routed to it, its credentials have no business in any message written on behalf of this request —
+				// not at an origin, and not in the Proxy-Authorization of the proxy this request does go through,
+				// unless the table (or URL) assigns that very credential to this proxy's host:port as well
+				for _, m := range family {
+					if m.cred == nil || m.hostport == upHost || sameCred(m.cred, upCred) {
+						continue
+					}
+					b := b64cred(m.cred.User, m.cred.Pass)
+					switch {
+					case atProxy && k == "proxy-authorization":
+						if v == "Basic "+b {
+							ctx.SpecFail("a Proxy-Authorization value is only ever seen by the proxy whose host:port the --credentials table (or the proxy URL) assigns it to",
+								"", one, impl, fmt.Sprintf("%s, selected for this request as %s, reads the credentials of %s: %s: %s", hd.Peer, upHost, m.hostport, k, v))
+						}
+					case strings.Contains(v, b):
+						if !(site != nil && sameCred(site, m.cred) && k == "authorization") {
+							ctx.SpecFail("upstream-proxy credentials appear only in Proxy-Authorization of messages addressed to that proxy", "", one, impl,
+								fmt.Sprintf("credentials of %s (not selected for this request): %s: %s at %s", m.hostport, k, v, hd.Peer))
+						}
+					}
+				}
 			}
 		}
 		// (2b) the proxy gets the credential that belongs to it: URL userinfo, else the table entry
-		if atProxy && len(fc.Base.ConnectRules) == 0 && (upHost == "proxya.test:3128" && hd.Peer == "proxyA" || upHost == "proxyb.test:3129" && hd.Peer == "proxyB") {
+		if atProxy && len(fc.Base.ConnectRules) == 0 && proxyPeerFor(upScheme, upHost) == hd.Peer {
 			gotPA := hd.Fields["proxy-authorization"]
 			if upCred != nil {
 				if want := "Basic " + b64cred(upCred.User, upCred.Pass); len(gotPA) != 1 || gotPA[0] != want {
@@ -684,6 +814,148 @@ func evaluate(ctx *core.Ctx, fc *reqmodel.FullCfg, one oneReq, q *creq, ob *obse
 			}
 		}
 	}
+	// (2s) a SOCKS5 server is presented the credentials that belong to its host:port, never another proxy's
+	for _, sr := range ob.Socks {
+		if sr.HasAuth && !(upScheme == "socks5" && upCred != nil && sr.User == upCred.User && sr.Pass == upCred.Pass) {
+			ctx.SpecFail("a SOCKS5 proxy is presented only the credentials the --credentials table (or the proxy URL) assigns to its host:port", "", one, impl,
+				fmt.Sprintf("user %q password %q presented; selected proxy %s %s", sr.User, sr.Pass, upScheme, upHost))
+		}
+	}
+}
+
+// requestHost: the host name the proxy function (the PAC script) is asked about for this request.
+func requestHost(q *creq) string {
+	scheme := "http"
+	switch q.Kind {
+	case "connect":
+		scheme = ""
+	case "inner":
+		scheme = "https"
+	}
+	h, _, _ := targetHostPort(scheme, q.Authority)
+	return h
+}
+
+func sameCred(a, b *reqmodel.Cred) bool {
+	if a == nil || b == nil {
+		return a == nil && b == nil
+	}
+	return a.User == b.User && a.Pass == b.Pass
+}
+
+// member is one upstream proxy a configuration can select, with the credentials that belong to it.
+type member struct {
+	scheme, hostport string
+	cred             *reqmodel.Cred
+}
+
+// upstreamFamily: every upstream proxy the configuration selects for some target host (static: the one; PAC: the
+// first entry of each answer of the script), each with the credentials the URL or the table assigns to its host:port.
+func upstreamFamily(fc *reqmodel.FullCfg) []member {
+	var out []member
+	seen := map[string]bool{}
+	add := func(host string) {
+		sch, hp, c := upstreamSpec(fc, host)
+		if hp == "" || seen[sch+"|"+hp] {
+			return
+		}
+		seen[sch+"|"+hp] = true
+		out = append(out, member{sch, hp, c})
+	}
+	switch fc.Route.Base {
+	case "static":
+		add("")
+	case "pac":
+		for _, e := range fc.Route.PacTable {
+			add(e.Host)
+		}
+		add("\x00 no entry of the table") // the script's default answer
+	}
+	return out
+}
+
+func familyCred(fam []member, hostport string) *reqmodel.Cred {
+	for _, m := range fam {
+		if m.hostport == hostport {
+			return m.cred
+		}
+	}
+	return nil
+}
+
+// seqObs: what the hops read on behalf of one request of a case, with the case a finding on it is reported as.
+type seqObs struct {
+	cs any
+	ob *observed
+}
+
+// checkSeq ties the sequence model (C06.pacCredSeq: one instance with a PAC script and a credentials table folded
+// over the script's answers for the requests, in order) to what the selected proxies read, request by request.
+func checkSeq(ctx *core.Ctx, cc *ccase, seq []seqObs) {
+	if len(seq) == 0 {
+		return
+	}
+	var items []string
+	for i := range seq {
+		r := cc.Route.PacDefault
+		host := requestHost(&cc.Requests[i])
+		for _, e := range cc.Route.PacTable {
+			if e.Host == host {
+				r = e.R
+				break
+			}
+		}
+		if r.Fail != "" {
+			items = append(items, "fail")
+		} else {
+			items = append(items, core.JoinList([]string{"ok", core.HexS(r.Return)}))
+		}
+	}
+	ans := ctx.Model.MustAsk("C06", "pacseq", reqmodel.CredsToken(cc.Creds), core.JoinList2(items))
+	if ans == "rejected" {
+		return
+	}
+	answers := core.SplitList2(strings.TrimPrefix(ans, "seq "))
+	if len(answers) != len(seq) {
+		core.Fatalf("pacseq: %d answers for %d requests: %q", len(answers), len(seq), ans)
+	}
+	ctx.Count("seq/instances-compared-with-pacCredSeq")
+	for i, so := range seq {
+		f := core.SplitList(answers[i])
+		var want []string // the Proxy-Authorization values the selected proxy reads
+		peer, socks := "", false
+		var wantSocks *reqmodel.Cred
+		if f[0] == "proxy" {
+			scheme, hp := string(core.MustUnHex(f[1])), string(core.MustUnHex(f[2]))
+			peer = proxyPeerFor(scheme, hp)
+			socks = scheme == "socks5" && socksAt[hp]
+			if len(f) == 5 {
+				u, pw := string(core.MustUnHex(f[3])), string(core.MustUnHex(f[4]))
+				want = []string{"Basic " + b64cred(u, pw)}
+				wantSocks = &reqmodel.Cred{User: u, Pass: pw}
+			}
+		}
+		okAll := true
+		for _, hd := range so.ob.Heads {
+			if _, inside := hd.Fields["x-inside"]; inside || !isProxyPeer(hd.Peer) {
+				continue
+			}
+			if got := hd.Fields["proxy-authorization"]; hd.Peer != peer || strings.Join(got, "\x00") != strings.Join(want, "\x00") {
+				okAll = false
+				ctx.Disagree("k-th request of one instance: the proxy that reads a head and its Proxy-Authorization = Model pacCredSeq", so.cs, so.ob.String(),
+					fmt.Sprintf("request %d: %s; proxy-authorization %q at %q", i, answers[i], want, peer))
+			}
+		}
+		for _, sr := range so.ob.Socks {
+			if !socks || sr.HasAuth != (wantSocks != nil) || wantSocks != nil && (sr.User != wantSocks.User || sr.Pass != wantSocks.Pass) {
+				okAll = false
+				ctx.Disagree("k-th request of one instance: SOCKS5 credentials = Model pacCredSeq", so.cs, so.ob.String(), fmt.Sprintf("request %d: %s", i, answers[i]))
+			}
+		}
+		if okAll {
+			ctx.TraceValidated()
+		}
+	}
 }
 
 // routed: the target is one the connect-to rules lead to a scripted origin.
@@ -693,7 +965,8 @@ func routed(scheme, authority string) bool {
 		return false
 	}
 	switch h + ":" + p {
-	case "origin.test:80", "origin.test:8080", "other.test:80", "origin.test:443", "secure.test:443", "secure.test:8443", "other.test:443":
+	case "origin.test:80", "origin.test:8080", "other.test:80", "origin.test:443", "secure.test:443", "secure.test:8443", "other.test:443",
+		"secure.test:80", "fourth.test:80", "fourth.test:443":
 		return true
 	}
 	return false
@@ -706,7 +979,11 @@ func Run(ctx *core.Ctx) {
 		"header shapes: Proxy-Authorization absent/single/repeated/mixed case/nominated by Connection, Authorization absent/present/empty; 30% of the requests are " +
 		"protocol upgrades (Upgrade + Connection: Upgrade in token lists of every spelling) that also nominate Proxy-Authorization / Authorization / the standard " +
 		"hop-by-hop set / managed and custom names with the nominated fields present; every head every hop reads " +
-		"is compared; plus the exported CredentialsMatcher API against the model on generated tables and lookups; " +
+		"is compared; 40% of the cases are PAC configurations with 2-4 upstream proxies that share a host name and differ in port (or share the port and differ " +
+		"in host, or are spellings of one address), a credentials table with exact / host:* / *:port / *:* entries for some of them and none for the rest, and " +
+		"a request sequence on one instance that visits them in every order: every Proxy-Authorization value (SOCKS5 credential) must be seen only by the proxy " +
+		"whose host:port the table assigns it to, and the sequence model pacCredSeq is compared per case; " +
+		"plus the exported CredentialsMatcher API against the model on generated tables and lookups; " +
 		"non-trivial = a credential table, a client Proxy-Authorization or an upstream credential is involved; distinct = distinct (configuration, request)")
 	for _, c := range core.LoadCorpus(ctx.Root, "C06") {
 		Replay(ctx, c)
